@@ -45,7 +45,11 @@ def parseUamiv (toks : List String) : Option Uamiv := do
   let st ← kvGet kv "steps"
   let nx := grid.getD 7 0
   let ny := grid.getD 8 0
-  let nz := grid.getD 9 0
+  -- layers of data per species: the header count unless the content says otherwise (`lay=`: old 2-D
+  -- emission files carry nz = 0 in the header and one layer of data)
+  let nz := match (kvGet kv "lay").bind parseNat with
+    | some l => l
+    | none => grid.getD 9 0
   let steps ← if st = "-" then some [] else (st.splitOn "|").mapM (parseStep species.length nz (nx * ny))
   match (ft.splitOn ":").mapM parseHexWord with
   | some [a, b, c, d] => some ⟨name, note, itzon, a, b, c, d, grid, species, steps⟩
@@ -93,6 +97,7 @@ def runBin : List String → String
   | "slab-view" :: toks => Slab.run ("slab-view" :: toks)
   | "slab-mm" :: toks => Slab.run ("slab-mm" :: toks)
   | "cr-enc" :: toks => Slab.runCR toks
+  | "wind-enc" :: toks => Slab.runWind toks
   | "uamiv-write" :: toks =>
     match parseWriteIn toks with
     | some i => "ok " ++ showWords (writerContent i).encode
